@@ -445,12 +445,9 @@ func TestC02(t *testing.T) {
 		}
 		c02Manager(ev, driver, s, vlib.Scale(2000, 50000))
 		cleanup()
-		for i := 0; i < vlib.Scale(100, 2500); i++ {
-			c02PoolHistory(ev, driver, i)
-		}
-		for i := 0; i < vlib.Scale(25, 500); i++ {
-			c02Slicing(ev, driver, i)
-		}
+		driver := driver
+		parallelCases(vlib.Scale(300, 6000), 8, func(i int) { c02PoolHistory(ev, driver, i) })
+		parallelCases(vlib.Scale(60, 1200), 8, func(i int) { c02Slicing(ev, driver, i) })
 	}
 	finish(t, ev)
 }
